@@ -136,5 +136,4 @@ def explore(chk):
     chk.cov["distinct_nontrivial"] = chk.cov["states"]
     for c in ("C09.len", "C09.iter", "C09.match"):
         chk.clause(c, checked=chk.cov["traces_validated_against_impl"], nontrivial=chk.cov["states"])
-    chk.sample({"ops": [["add", "a.b"], ["add", "b"], ["add", "a.a.b"]], "queries": "match on 30 hosts x 7 embeddings, len, iter"})
     chk.assumptions.append("IP literals / localhost excluded (documented as undefined); labels {a,b,c} and the spelling universe")
